@@ -1,4 +1,5 @@
 """C16 — the example JSON parser agrees with encoding/json on the supported subset."""
+import os
 import re
 
 ID = "C16"
@@ -281,6 +282,15 @@ def generate(rng, tier):
 
     for d in FIXED:
         add(d, {"stream": "fixed", "kind": "fixed"})
+    # the example documents shipped with the example parser (the 100k one only in the thorough tier)
+    repo = os.environ.get("VERIF_REPO", "/repo")
+    for name in ["example.json", "example_1k.json", "example_10k.json"] + ([] if quick else ["example_100k.json"]):
+        try:
+            d = open(os.path.join(repo, "examples", "json", name), "rb").read()
+        except OSError:
+            continue
+        add(d, {"stream": "fixed", "kind": "example-file"})
+        add(d.replace(b"\n", b"\r\n"), {"stream": "fixed", "kind": "example-file"})
     # lexeme tables, bare and inside containers
     tables = [("std", [b'"' + x + b'"' for x in STD_PLAIN + STD_ESC] + STD_DEC + STD_WORDS +
                [str(x).encode() for x in INT_EDGES]),
